@@ -56,7 +56,7 @@ def floors(tier):
     return {"cases": 20000, "no_checker_cases": 3000, "with_checker_cases": 10000, "unknown_name_cases": 1000,
             "nonstring_builtin_cases": 2000, "custom_return_cases": 300, "listed_raise_cases": 100,
             "unlisted_raise_cases": 1000, "subclass_raise_cases": 100, "format_errors_seen": 2000, "nested_cases": 3000, "stateful_sequence_calls": 3000, "reregistration_cases": 60,
-            "raise_cases_under_applicators": 1000, "metaschema_format_cases": 200}
+            "raise_cases_under_applicators": 1000, "metaschema_format_cases": 200, "late_registration_cases": 40}
 
 
 def wrappers(d, fmt):
@@ -413,6 +413,45 @@ def metaschema_formats_without_checker(ctx, d):
                               "%s: %s" % (type(e).__name__, str(e)[:100]))
 
 
+def late_registration_cases(ctx, d):
+    """The validator is built first, the format is registered on its (long-lived) checker afterwards: an instance fails
+    `format` exactly when the checker's conforms() is false AT THAT MOMENT."""
+    cls = impl.CLS[d]
+    for start in ("empty", "other-name", "default", "subset"):
+        chk = {"empty": lambda: jsonschema.FormatChecker(formats=()), "default": jsonschema.FormatChecker,
+               "subset": lambda: jsonschema.FormatChecker(formats=["ipv4"]),
+               "other-name": lambda: _with(jsonschema.FormatChecker(formats=()), "vf-other", lambda x: True)}[start]()
+        for schema, inst in (({"format": "vf-late"}, "x"), ({"items": {"format": "vf-late"}}, ["x", "y"]),
+                             ({"properties": {"a": {"format": "vf-late"}}}, {"a": "x"})):
+            v = cls(schema, format_checker=chk)
+            case = {"draft": d, "schema": schema, "instance": inst, "checker_started_as": start}
+            ctx.case([d, "late", start, schema])
+            ctx.count("cases")
+            ctx.count("late_registration_cases")
+            steps = []
+            try:
+                steps.append(("before", len(list(v.iter_errors(inst))), chk.conforms("x", "vf-late")))
+                chk.checks("vf-late")(lambda x: False)
+                steps.append(("registered-rejecting", len(list(v.iter_errors(inst))), chk.conforms("x", "vf-late")))
+                steps.append(("is_valid", v.is_valid(inst), None))
+                chk.checks("vf-late")(lambda x: True)
+                steps.append(("re-registered-accepting", len(list(v.iter_errors(inst))), chk.conforms("x", "vf-late")))
+                del chk.checkers["vf-late"]
+                steps.append(("removed", len(list(v.iter_errors(inst))), chk.conforms("x", "vf-late")))
+            except Exception as e:
+                ctx.violation("raised", case, "%s: %s after %r" % (type(e).__name__, str(e)[:80], steps))
+                continue
+            n = len(inst) if isinstance(inst, list) else 1
+            want = [("before", 0, True), ("registered-rejecting", n, False), ("is_valid", False, None), ("re-registered-accepting", 0, True), ("removed", 0, True)]
+            if steps != want:
+                ctx.violation("format-verdict-not-conforms", case, "a validator built before the registration reports %r, the checker says %r" % (steps, want))
+
+
+def _with(chk, name, fn):
+    chk.checks(name)(fn)
+    return chk
+
+
 def run(ctx):
     impl.quiet()
     checkers = {"none": None, "FormatChecker()": jsonschema.FormatChecker()}
@@ -428,6 +467,7 @@ def run(ctx):
         idx += 1
         if ctx.mine(idx):
             metaschema_formats_without_checker(ctx, d)
+            late_registration_cases(ctx, d)
             custom_cases(ctx, rr, d)
             for _ in range(6):
                 stateful_sequences(ctx, rr, d)
